@@ -42,9 +42,16 @@ class Obligation:
 
 
 class Budget:
-    def __init__(self, branch_ms=2000, prove_ms=20000, max_paths=400):
+    def __init__(self, branch_ms=2000, prove_ms=20000, max_paths=400,
+                 wall_s=300):
         self.branch_ms, self.prove_ms, self.max_paths = \
             branch_ms, prove_ms, max_paths
+        self.wall_s = wall_s        # per function; expiry = UNDECIDED
+        self.deadline = None
+
+
+class OutOfTime(Exception):
+    pass
 
 
 class Path:
@@ -105,6 +112,9 @@ class Path:
             self.solver.pop()
 
     def decide(self, cond):
+        if self.budget.deadline is not None and \
+                time.time() > self.budget.deadline:
+            raise OutOfTime()
         i = len(self.taken)
         if i < len(self.prefix):
             d = self.prefix[i]
